@@ -94,7 +94,8 @@ Cleanup(t) ==
          IN  IF na[1] = 0 THEN t
              ELSE LET m == MatchSyn(na[2], syn, na[1]) IN
                   CASE m.tag = "matched" -> Cleanup(m.t)
-                    [] m.tag = "invalid" -> Cleanup([na[2] EXCEPT !.ready = na[1]])              \* the clashing SYN is dropped
+                    [] m.tag = "invalid" -> IF Variant = "no_rescan" THEN [na[2] EXCEPT !.ready = na[1]]  \* (seeded: gives up here)
+                                            ELSE Cleanup([na[2] EXCEPT !.ready = na[1]])         \* the clashing SYN is dropped
                     [] m.tag = "dead"    -> Cleanup([na[2] EXCEPT !.syns = IF Variant = "requeue_back" THEN Append(@, syn)
                                                                            ELSE <<syn>> \o @])   \* the dead acceptor is dropped
                     [] OTHER             -> [na[2] EXCEPT !.syns = <<syn>> \o @, !.ready = na[1]]
@@ -265,6 +266,11 @@ AcceptCallOrder == \A i, j \in 1 .. Len(s.handed) : i < j => s.handed[i][1] < s.
 SlotsBounded == \A a \in Addrs : Cardinality({ p \in s.conn : p.addr = a }) <= Slots
 \* a retained SYN and an idle acceptor never coexist once the dispatcher has looked (after Cleanup), unless the table is full
 NoIdleAcceptor == LET t == Cleanup(s) IN (t.syns # <<>> /\ ~Full(t)) => (t.ready = 0 /\ t.chan = <<>>)
+
+\* C13 "so later calls are not starved": a dispatcher that waits in select! with nothing left to wake it up does not sit
+\* on both an accept call and a retained request (the model counterpart of the trace rule C13.NotStarved)
+ParkedNotStarved ==
+    (s.parked /\ s.chan = <<>> /\ s.ctl = <<>>) => ~(s.syns # <<>> /\ s.ready # 0 /\ s.ready \notin s.deadAcc /\ ~Full(s))
 
 TypeOK == /\ s.ready \in 0 .. MaxAccept
           /\ s.nextCid \in Cid
